@@ -823,6 +823,115 @@ let op_ui args =
   go keys;
   !out
 
+(* ---------------- itemx: posts and actors rendered from the fields their constructor stored ---------------- *)
+(* fval from the lib stream: 0 value | 1 absent msg | 2 err msg *)
+let take_fval take_v l =
+  let (st, r) = take1 l in
+  match st with
+  | 0 -> let (v, r) = take_v r in (FOk v, [], r)
+  | 1 -> let (m, r) = take_text r in (FAbsent, m, r)
+  | _ -> let (m, r) = take_text r in (FErr m, m, r)
+let take_unum l = let (hi, r) = take1 l in let (lo, r) = take1 r in (z_of_halves hi lo, r)
+let take_mt l = let (e, r) = take_text l in let (su, r) = take_text r in let (sb, r) = take_text r in ({ essence = e; supertype = su; subtype = sb }, r)
+let take_link_body l =
+  let (kind, r) = take_text l in
+  let (mt, _, r) = take_fval take_mt r in
+  let (uri, umsg, r) = take_fval take_text r in
+  let uri = (match uri with FAbsent -> FErr umsg | x -> x) in        (* Alt() shows the message of uriErr whatever it is *)
+  let (alt, _, r) = take_fval take_text r in
+  let (h, _, r) = take_fval take_unum r in
+  let (w, _, r) = take_fval take_unum r in
+  ({ l_kind = kind; l_mt = mt; l_uri = uri; l_alt = alt; l_height = h; l_width = w }, r)
+let take_link_f l = take_fval take_link_body l
+let put_sel = function
+  | Some (l, m) -> 1 :: put_text l @ put_text m.essence
+  | None -> [0] @ put_text [] @ put_text []
+let body_render jvdoc body_key tree =
+  let o = match jvdoc with JObj kvs -> kvs | _ -> [] in
+  match get_markup o body_key media_type_key with
+  | Present (kind, content) ->
+    let c = default_colors in
+    (fun w -> match kind with
+       | MPlain -> fst (plain_render_with_links c content w)
+       | MGemini -> fst (gem_render_with_links c content w)
+       | MHtml | MMarkdown -> (match take_nodes tree with Some ns -> fst (render_with_links c ns w) | None -> []))
+  | _ -> (fun _ -> [])
+let op_itemx args lib =
+  let (_doc, r) = take_text args in let (ctor, r) = take1 r in let (widths, r) = take_list r in let (numbers, r) = take_list r in
+  let (jvdoc, _) = take_jv r in
+  if lib = [] then [1] else
+  let c = default_colors in
+  let txt s = List.map (fun ch -> n_of_int (Char.code ch)) (List.init (String.length s) (String.get s)) in
+  if ctor = 0 then begin
+    let (kind, l) = take_text lib in
+    let (title, tmsg, l) = take_fval take_text l in
+    let (bst, l) = take1 l in
+    let (bmsg, l) = (if bst = 0 then ([], l) else take_text l) in
+    let (nbl, l) = take1 l in let (blinks, l) = take_texts nbl l in
+    let (created, _, l) = take_fval take_text l in
+    let (pabs, l) = take1 l in
+    let (nc, l) = take1 l in let (creators, l) = take_texts nc l in
+    let (nr, l) = take1 l in let (recips, l) = take_texts nr l in
+    let (atts, amsg, l) = take_fval (fun l -> let (n, l) = take1 l in
+                                      let rec go n l = if n = 0 then ([], l) else
+                                          let (st, l) = take1 l in ignore st;
+                                          let (lk, l) = take_link_body l in let (rest, l) = go (n - 1) l in (lk :: rest, l) in go n l) l in
+    ignore amsg;
+    let (media, _, l) = take_link_f l in
+    let (cst, l) = take1 l in
+    let (comments, tree) = (match cst with
+        | 0 -> (CAbsent, l) | 1 -> (CErr, l)
+        | _ -> let (sz, _, l) = take_fval take_unum l in (COk sz, l)) in
+    let render = body_render jvdoc (txt "content") tree in
+    let body = (match bst with 0 -> FOk render | 1 -> FAbsent | _ -> FErr bmsg) in
+    let p = { p_kind = kind; p_title = title; p_title_msg = tmsg; p_body = body; p_body_links = blinks; p_created = created;
+              p_parent_absent = (pabs <> 0); p_creators = creators; p_recipients = recips; p_attachments = atts; p_media = media;
+              p_comments = comments } in
+    try
+      [0] @ put_text (post_name c p)
+      @ List.concat_map (fun w -> put_text (post_string c p (z_of_int w))
+                                  @ (match post_preview c p (z_of_int w) with Ok t -> put_text t | Panic -> raise Model_panic)) widths
+      @ List.concat_map (fun k -> put_sel (post_select_link p (z_of_int k))) numbers
+      @ put_sel (post_media p)
+    with Model_panic -> panic_marker
+  end else begin
+    let (kind, l) = take_text lib in
+    let (name, _, l) = take_fval take_text l in
+    let (handle, _, l) = take_fval take_text l in
+    let (hasid, l) = take1 l in
+    let (host, l) = (if hasid <> 0 then let (h, l) = take_text l in (Some h, l) else (None, l)) in
+    let (bst, l) = take1 l in
+    let (bmsg, l) = (if bst = 0 then ([], l) else take_text l) in
+    let (nbl, l) = take1 l in let (blinks, l) = take_texts nbl l in
+    let (joined, _, l) = take_fval take_text l in
+    let (pfp, _, l) = take_link_f l in
+    let (banner, _, l) = take_link_f l in
+    let (pst, l) = take1 l in
+    let (posts, tree) = (if pst <> 0 then let (m, l) = take_text l in (FErr m, l)
+                         else let (sz, _, l) = take_fval take_unum l in (FOk sz, l)) in
+    let render = body_render jvdoc (txt "summary") tree in
+    let bio = (match bst with 0 -> FOk render | 1 -> FAbsent | _ -> FErr bmsg) in
+    let a = { a_kind = kind; a_name = name; a_handle = handle; a_host = host; a_bio = bio; a_bio_links = blinks; a_joined = joined;
+              a_pfp = pfp; a_banner = banner; a_posts = posts } in
+    try
+      [0] @ put_text (actor_name c a)
+      @ List.concat_map (fun w -> put_text (actor_string c a (z_of_int w))
+                                  @ (match actor_preview c a (z_of_int w) with Ok t -> put_text t | Panic -> raise Model_panic)) widths
+      @ List.concat_map (fun k -> put_sel (actor_select_link a (z_of_int k))) numbers
+      @ put_sel (actor_pfp a) @ put_sel (actor_banner a)
+    with Model_panic -> panic_marker
+  end
+let orc_itemx args lib impl =
+  match impl with
+  | 0 :: rest ->
+    (try
+      let (_doc, r) = take_text args in let (_, r) = take1 r in let (widths, _) = take_list r in
+      let (texts, _) = take_texts (1 + 2 * List.length widths) rest in
+      [("safe", List.for_all safe_b texts); ("neutral", List.for_all neutral_b texts); ("wf_out", List.for_all wf_text_b texts);
+       ("equals_model", op_itemx args lib = impl)]
+    with _ -> [("well_formed_result", false)])
+  | _ -> []
+
 (* ---------------- dispatch ---------------- *)
 let handlers : (string, (int list -> int list -> int list) * (int list -> int list -> int list -> (string * bool) list)) Hashtbl.t = Hashtbl.create 64
 (* handlers that use library-oracle answers (the "<id> L ..." line of the implementation run) *)
@@ -851,6 +960,7 @@ let () =
   regl "render" op_render orc_render;
   regl "net" op_net orc_net;
   reg "item" op_item orc_item;
+  regl "itemx" op_itemx orc_itemx;
   reg "ui" op_ui (orc_equal op_ui);
   reg "uihook" (fun _ -> []) (fun _ impl -> match impl with _ :: _ :: st :: _ -> [("every_key_processed", st = 0)] | _ -> []);
   reg "uistress" (fun _ -> []) (fun _ impl -> match impl with u :: o :: st :: _ -> [("frames_under_lock", u = 0); ("frames_one_at_a_time", o = 0); ("every_key_processed", st = 0)] | _ -> []);
